@@ -216,6 +216,18 @@ class PassShape:
                     self.memo = mt
                 elif self.memo is None:
                     self.memo = mt
+        self.memo_on_task = None
+        if self.memo is None and first and isinstance(first[0], ast.If) and first[0].body and isinstance(first[0].body[-1], ast.Return):
+            # (wrongly) a visited flag kept on the task object itself: `if getattr(task, 'done', False): return` / `if task.done: return`
+            m = match(f"getattr({self.task}, $n, $d)", first[0].test) or match(f"getattr({self.task}, $n)", first[0].test)
+            if m and isinstance(m['n'], ast.Constant) and isinstance(m['n'].value, str):
+                self.memo_on_task = m['n'].value
+            else:
+                m = match(f"{self.task}.$a", first[0].test)
+                if m and isinstance(m['a'], str) and m['a'] not in ('milestone',):
+                    self.memo_on_task = m['a']
+            if self.memo_on_task:
+                self.memo = f"{self.task}.{self.memo_on_task}"
         if self.memo is None:
             from sa.model import AnalysisError
             raise AnalysisError(f"{f.qual}: no memo (`if task.id in <memo>: return`) found")
@@ -256,6 +268,9 @@ class PassShape:
                 r['is_none'][m['a']] = not pol
                 continue
             if (match(f"{self.task}.id in {self.memo}", t) and not pol) or (match(f"{self.task}.id not in {self.memo}", t) and pol):
+                continue
+            if getattr(self, 'memo_on_task', None) and not pol and (match(f"getattr({self.task}, '{self.memo_on_task}', $d)", t) or
+                                                                   match(f"{self.task}.{self.memo_on_task}", t)):
                 continue
             r['other'].append((t, pol))
         # unit propagation over negated conjunctions: not (A and B) with A known true gives not B
@@ -724,6 +739,12 @@ def memo_is_local(ctx, o, S):
     """the memo of the recursive pass is a container allocated by calc for this call, handed down as an argument"""
     ps = PassShape(ctx, S)
     calc = ctx.prog.func(S['calc'])
+    if getattr(ps, 'memo_on_task', None):
+        o.refute(ps.f, ps.f.body[0], f"memo task.{ps.memo_on_task}",
+                 f"the pass skips a task when its attribute `{ps.memo_on_task}` is set and sets it after scheduling: the marker lives on the task "
+                 f"objects of the result (and is copied by clone()), not in a per-call memo - a later calc() on that WBS or a clone of it skips "
+                 f"every marked task: no dates, no roll-ups")
+        return
     if ps.memo_on_self:
         o.refute(ps.f, ps.f.body[0], f"memo self.{unmangle(ps.memo_on_self)}",
                  f"the memo of scheduled task ids lives on the scheduler object (self.{unmangle(ps.memo_on_self)}): a second calc() on the same "
